@@ -131,12 +131,15 @@ GrantsOf(cl, k) == Get(cl.grant, k, <<>>)
 GrantOf(cl, k) == IF GrantsOf(cl, k) = <<>> THEN NoGrant ELSE GrantsOf(cl, k)[Len(GrantsOf(cl, k))]
 
 (* The answers that may back a decision for a client request sent at reqL:   *)
-(* the latest answer, and every answer whose access request was issued after *)
-(* the client request (two requests on a resource the connection is not      *)
-(* subscribed to each ask on their own).                                     *)
+(* every answer for (connection, resource) that is still valid - validity is *)
+(* ended only by a trigger (inv), by the end of the subscription the answer  *)
+(* was cached on (dis), or by the stale-token rule; a later answer does not  *)
+(* end it (two subscriptions of one connection on one resource - a throw-away *)
+(* one of a call next to a subscribe - each ask on their own, and a refusal   *)
+(* given to one does not revoke the grant cached on the other).               *)
 Verdict(cl, k, reqL, Allowed(_)) ==
     LET gs == GrantsOf(cl, k)
-        cand == {i \in DOMAIN gs : i = Len(gs) \/ gs[i].rl > reqL}
+        cand == DOMAIN gs
         sts == {GrantState(gs[i], reqL, Allowed(gs[i]), cl.lastTokT) : i \in cand}
     IN IF "ok" \in sts THEN "ok" ELSE IF "kf" \in sts THEN "kf" ELSE "bad"
 
@@ -206,7 +209,9 @@ H_cres(r) ==
       [] req.m = "unsubscribe" ->
             LET n == nsubOf(req.rid)
                 takers == PendingTakers(cl1, req.rid, r.id)
-                kf == IF takers # {} THEN "KF-H" ELSE ""
+                \* finding KF-H: an in-flight count is involved now, or an earlier unsubscribe on this resource was answered
+                \* against one (the confirmed count has been off by that since)
+                kf == IF takers # {} \/ req.rid \in cl1.hUnsub THEN "KF-H" ELSE ""
             IN IF r.ok
                THEN LET d2 == Put(cl1.direct, req.rid, MaxI(0, dirOf(req.rid) - req.count))
                         cl2 == [Collect(cl1, res1, d2) EXCEPT !.nsub = Put(cl1.nsub, req.rid, MaxI(0, n - req.count)),
@@ -418,11 +423,15 @@ H_note0(r) ==
             LET st == CEStep(Get(o.ce, r.n, CENew), r)
                 \* an evicted entry takes the state of its resources with it (a later entry of the name starts afresh)
                 rst2 == IF r.kind = "cacheEvict" /\ r.done THEN [k \in {x \in DOMAIN o.rst : Get(o.keyn, x, x) # r.n /\ x # r.n} |-> o.rst[k]] ELSE o.rst
-            IN Res([o EXCEPT !.ce = Put(@, r.n, st.x), !.rst = rst2], {V("C09", "cache entry " \o Short(r.n) \o ": " \o m, "") : m \in st.errs})
-      [] r.kind \in RQNotes /\ ~o.hadStop /\ o.stop.l = 0 ->
-            \* C13 / C15: the resource's work queue and its query-event lock follow ResQueue.tla
-            LET st == RQStep(Get(o.rq, r.n, RQNew), r)
-            IN Res([o EXCEPT !.rq = Put(@, r.n, st.x)], {V(e.p, "work queue of " \o Short(r.n) \o ": " \o e.m, "") : e \in st.errs})
+                \* mqUnsubscribe drops what was still queued on the evicted entry (service events for a resource nobody uses)
+                rq2 == IF r.kind = "cacheEvict" /\ r.done /\ "ep" \in DOMAIN r /\ r.ep \in DOMAIN o.rq
+                       THEN Put(o.rq, r.ep, [o.rq[r.ep] EXCEPT !.x = [@ EXCEPT !.ql = 0]]) ELSE o.rq
+            IN Res([o EXCEPT !.ce = Put(@, r.n, st.x), !.rst = rst2, !.rq = rq2], {V("C09", "cache entry " \o Short(r.n) \o ": " \o m, "") : m \in st.errs})
+      [] r.kind \in RQNotes /\ "ep" \in DOMAIN r /\ ~o.hadStop /\ o.stop.l = 0 ->
+            \* C13 / C15: the resource's work queue and its query-event lock follow ResQueue.tla (per entry object:
+            \* an evicted entry's worker may still run after a new entry of the same name exists)
+            LET st == RQStep(Get(o.rq, r.ep, [x |-> RQNew]).x, r)
+            IN Res([o EXCEPT !.rq = Put(@, r.ep, [x |-> st.x, n |-> r.n])], {V(e.p, "work queue of " \o Short(r.n) \o ": " \o e.m, "") : e \in st.errs})
       [] OTHER -> Res(o, {})
 
 (* C03 / C12: a cached resource passes events on as ResSub.tla says *)
@@ -567,10 +576,13 @@ H_mres(r) ==
         o1 == [o EXCEPT !.mqpend = Del(o.mqpend, r.k)]
     IN CASE r.t = "get" ->
               LET a2 == AnnGet(AnnOf(o.ann, r.nkey), r, req.refetch)
+                  \* only a resource answer tells the normalized query; an error answer (e.g. to a re-fetch of the
+                  \* un-normalized query issued before the first answer arrived) leaves the mapping alone
+                  isRes == r.kind \in {"m", "c"}
               IN Res([o1 EXCEPT !.ann = Put(o.ann, r.nkey, a2),
-                                !.norm = Put(o.norm, r.key, r.nkey),
-                                !.keyn = Put(o.keyn, r.nkey, r.n),
-                                !.keyq = Put(o.keyq, r.nkey, r.nq),
+                                !.norm = IF isRes THEN Put(o.norm, r.key, r.nkey) ELSE @,
+                                !.keyn = IF isRes \/ r.nkey \notin DOMAIN @ THEN Put(o.keyn, r.nkey, r.n) ELSE @,
+                                !.keyq = IF isRes \/ r.nkey \notin DOMAIN @ THEN Put(o.keyq, r.nkey, r.nq) ELSE @,
                                 !.window = IF req.refetch THEN @ \ {r.nkey} ELSE @,
                                 \* an initial load answered after a query event arrived: the query was not (continuously) cached for it
                                 !.qev = IF req.refetch THEN @ ELSE [sj \in DOMAIN o.qev |-> [o.qev[sj] EXCEPT !.must = @ \ {r.nkey, r.key}]]], {})
@@ -737,7 +749,7 @@ H_quiescent(r) ==
            UNION {C01Viol(c, r) \cup C07Viol(c) \cup C08Viol(c, r) \cup C03EndViol(c, r) \cup C06EndViol(c, r) \cup C06TokViol(c, r) : c \in live}
            \cup C09QViol(r) \cup C11Viol(r) \cup C19QViol
            \cup (IF o.hadStop THEN {} ELSE UNION {{V(e.p, "subscription " \o Short(o.sq[sp].rid) \o " of " \o o.sq[sp].c \o ": " \o e.m, "") : e \in SQTQuiescent(o.sq[sp].x)} : sp \in DOMAIN o.sq})
-           \cup (IF o.hadStop THEN {} ELSE UNION {{V(e.p, "work queue of " \o Short(n) \o ": " \o e.m, "") : e \in RQQuiescent(o.rq[n])} : n \in DOMAIN o.rq})
+           \cup (IF o.hadStop THEN {} ELSE UNION {{V(e.p, "work queue of " \o Short(o.rq[ep].n) \o ": " \o e.m, "") : e \in RQQuiescent(o.rq[ep].x)} : ep \in DOMAIN o.rq})
            \cup (IF o.hadStop THEN {} ELSE UNION {{V(e.p, "cached resource " \o Short(k) \o ": " \o e.m, "") : e \in RSTQuiescent(o.rst[k])} : k \in DOMAIN o.rst})
            \cup (IF o.hadStop THEN {} ELSE UNION {{V("C09", "cache entry " \o Short(n) \o ": " \o m, "") : m \in CEQuiescent(o.ce[n])} : n \in DOMAIN o.ce})
            \cup UNION {{V("C13", "no query request for cached query " \o k \o " on query event " \o sj, "")
